@@ -90,73 +90,108 @@ macro_rules! ct {
     }};
 }
 
-/// Every configuration (quick-tier members are flagged; order = family by family).
+/// Names of the quick-tier cross-section: every family, both STARK flavours, both PCS kinds,
+/// preprocessed / lookups / public values / suppressed next-row opening / circuit tables, all four
+/// FRI parameter sets, and the two known-finding shapes.
+const QUICK: &[&str] = &[
+    "babybear_d4_p2w16/uni/fri/fib8/fri_testing",
+    "babybear_d4_p2w16/uni/fri/fib8/fri_b2_a3_f2",
+    "babybear_d4_p2w16/uni/fri/mul_prep/fri_b1_a2_f1",
+    "babybear_d4_p2w16/batch/fri/mixed3_prep/fri_testing",
+    "babybear_d4_p2w16/batch/fri/pubval_nonext/fri_testing",
+    "babybear_d4_p2w16/batch/fri/lookups_local_global/fri_testing_cap1",
+    "babybear_d4_p2w16/batch/fri/lookups_local_global/fri_b1_a2_f1",
+    "babybear_d4_p2w16/batch/fri/circuit_tables_arith10_d1/fri_testing",
+    "babybear_d4_p2w16/batch/fri/prep_shorter_than_main/fri_testing",
+    "babybear_d4_p2w16/uni/hiding_fri/fib8/fri_testing",
+    "babybear_d4_p2w16/batch/hiding_fri/lookups_local_global/fri_testing",
+    "koalabear_d4_p2w16/uni/fri/mul_prep/fri_testing",
+    "koalabear_d4_p2w16/batch/fri/mixed3_prep/fri_b1_a2_f1",
+    "koalabear_d4_p2w16/batch/fri/lookups_local_global/fri_testing",
+    "koalabear_d4_p2w16/batch/hiding_fri/add16/fri_testing",
+    "koalabear_quintic_d5_p2w16d1/uni/fri/fib8/fri_testing",
+    "koalabear_quintic_d5_p2w16d1/batch/fri/lookups_local_global/fri_testing",
+    "goldilocks_d2_p2w8/uni/fri/fib8/fri_testing",
+    "goldilocks_d2_p2w8/batch/fri/mixed3_prep_tall/fri_b2_a3_f2",
+    "goldilocks_d2_p2w8/batch/fri/lookups_local_global/fri_testing",
+];
+
+/// Every configuration: the cross product family × object kind × FRI set (cells that Plonky3
+/// itself cannot prove are left out: blow-up 2 with the hiding PCS; short traces with the long
+/// final polynomial use the `_tall` variant), plus the extra shapes at the end.
 pub fn catalogue() -> Vec<FixtureSpec> {
     let mut v: Vec<FixtureSpec> = vec![];
     let (t, b1, b2) = (FriSpec::TESTING, FriSpec::B1_ARITY2, FriSpec::B2_ARITY3);
     let c1 = FriSpec::TESTING_CAP1;
-    let q = true; // member of the quick tier
 
-    // ---- BabyBear D4, Poseidon2 W16, TwoAdicFriPcs
-    uni!(v, bb, q, UAir::Fib, "fib8", 8, t.clone());
-    uni!(v, bb, false, UAir::Fib, "fib8", 8, b1.clone());
-    uni!(v, bb, q, UAir::Fib, "fib8", 8, b2.clone());
-    uni!(v, bb, false, UAir::Fib, "fib8", 8, c1.clone());
+    macro_rules! plain_family {
+        ($m:ident) => {
+            for fs in [t.clone(), b1.clone(), b2.clone(), c1.clone()] {
+                let tall = fs.tag == "fri_b2_a3_f2";
+                uni!(v, $m, false, UAir::Fib, "fib8", 8, fs.clone());
+                uni!(v, $m, false, mul_u(), "mul_prep", 8, fs.clone());
+                if tall {
+                    batch!(v, $m, false, mixed3_tall(), "mixed3_prep_tall", fs.clone());
+                } else {
+                    batch!(v, $m, false, mixed3(), "mixed3_prep", fs.clone());
+                }
+                batch!(v, $m, false, pubval_nonext(), "pubval_nonext", fs.clone());
+                batch!(v, $m, false, lookups_lg(), "lookups_local_global", fs.clone());
+            }
+        };
+    }
+    macro_rules! zk_family {
+        ($m:ident) => {
+            for fs in [t.clone(), b2.clone(), c1.clone()] {
+                let tall = fs.tag == "fri_b2_a3_f2";
+                batch!(v, $m, false, add_zk(), "add16", fs.clone());
+                if tall {
+                    batch!(v, $m, false, mixed3_tall(), "mixed3_prep_tall", fs.clone());
+                } else {
+                    batch!(v, $m, false, mixed3(), "mixed3_prep", fs.clone());
+                }
+                batch!(v, $m, false, pubval_nonext(), "pubval_nonext", fs.clone());
+                batch!(v, $m, false, lookups_lg(), "lookups_local_global", fs.clone());
+            }
+        };
+    }
+
+    // ---- BabyBear D4, Poseidon2 W16
+    plain_family!(bb);
     uni!(v, bb, false, UAir::Fib, "fib32", 32, b1.clone());
     uni!(v, bb, false, UAir::Fib, "fib64", 64, t.clone());
-    uni!(v, bb, false, mul_u(), "mul_prep", 8, t.clone());
-    uni!(v, bb, q, mul_u(), "mul_prep", 8, b1.clone());
     uni!(v, bb, false, UAir::Mul { degree: 3, rows: 8, reps: 20 }, "mul20_deg3_prep", 8, t.clone());
-    batch!(v, bb, q, mixed3(), "mixed3_prep", t.clone());
-    batch!(v, bb, false, mixed3_tall(), "mixed3_prep_tall", b2.clone());
-    batch!(v, bb, q, pubval_nonext(), "pubval_nonext", t.clone());
-    batch!(v, bb, false, lookups_lg(), "lookups_local_global", t.clone());
-    batch!(v, bb, false, lookups_lg(), "lookups_local_global", b1.clone());
-    batch!(v, bb, q, lookups_lg(), "lookups_local_global", c1.clone());
     batch!(v, bb, false, lookups_lg16(), "lookups_local_global16", b2.clone());
-    ct!(v, bb_ct, bb, 1, 10, q, t.clone());
+    ct!(v, bb_ct, bb, 1, 10, false, t.clone());
     // known finding: input-batch MMCS path depth taken from the global height
-    batch!(v, bb, q, prep_shorter_than_main(), "prep_shorter_than_main", t.clone());
-
-    // ---- BabyBear D4, HidingFriPcs (ZK)
+    batch!(v, bb, false, prep_shorter_than_main(), "prep_shorter_than_main", t.clone());
     // known finding: uni-STARK circuit does not observe the FRI-level random openings
-    uni!(v, bb_zk, q, UAir::Fib, "fib8", 8, t.clone());
-    batch!(v, bb_zk, false, add_zk(), "add16", t.clone());
-    batch!(v, bb_zk, false, mixed3(), "mixed3_prep", t.clone());
-    batch!(v, bb_zk, q, lookups_lg(), "lookups_local_global", t.clone());
-    batch!(v, bb_zk, false, pubval_nonext(), "pubval_nonext", b2.clone());
+    uni!(v, bb_zk, false, UAir::Fib, "fib8", 8, t.clone());
+    zk_family!(bb_zk);
 
     // ---- KoalaBear D4
-    uni!(v, kb, false, UAir::Fib, "fib8", 8, t.clone());
-    uni!(v, kb, false, UAir::Fib, "fib8", 8, b1.clone());
-    uni!(v, kb, false, UAir::Fib, "fib8", 8, b2.clone());
-    uni!(v, kb, false, mul_u(), "mul_prep", 8, b1.clone());
-    batch!(v, kb, q, mixed3(), "mixed3_prep", b1.clone());
-    batch!(v, kb, false, pubval_nonext(), "pubval_nonext", b2.clone());
-    batch!(v, kb, q, lookups_lg(), "lookups_local_global", t.clone());
-    batch!(v, kb, false, lookups_lg(), "lookups_local_global", b1.clone());
-    batch!(v, kb, false, lookups_lg(), "lookups_local_global", b2.clone());
+    plain_family!(kb);
     ct!(v, kb_ct, kb, 1, 10, false, t.clone());
-    batch!(v, kb_zk, false, add_zk(), "add16", t.clone());
-    batch!(v, kb_zk, false, lookups_lg(), "lookups_local_global", b2.clone());
+    zk_family!(kb_zk);
 
     // ---- KoalaBear quintic (D=5, base-field permutation + recompose/coeff)
-    uni!(v, kbq, false, UAir::Fib, "fib8", 8, t.clone());
-    uni!(v, kbq, false, mul_u(), "mul_prep", 8, b1.clone());
-    batch!(v, kbq, q, lookups_lg(), "lookups_local_global", t.clone());
-    batch!(v, kbq, false, mixed3(), "mixed3_prep", b1.clone());
+    plain_family!(kbq);
     ct!(v, kbq_ct, kbq, 5, 10, false, t.clone());
 
     // ---- Goldilocks D2, Poseidon2 width 8
-    uni!(v, gl, q, UAir::Fib, "fib8", 8, t.clone());
-    uni!(v, gl, false, UAir::Fib, "fib8", 8, b1.clone());
-    uni!(v, gl, false, UAir::Fib, "fib8", 8, b2.clone());
-    uni!(v, gl, false, mul_u(), "mul_prep", 8, t.clone());
-    batch!(v, gl, false, mixed3(), "mixed3_prep", t.clone());
-    batch!(v, gl, q, lookups_lg(), "lookups_local_global", t.clone());
-    batch!(v, gl, false, pubval_nonext(), "pubval_nonext", b1.clone());
+    plain_family!(gl);
 
+    for s in v.iter_mut() {
+        s.quick = QUICK.contains(&s.name.as_str());
+    }
+    debug_assert!(QUICK.iter().all(|q| v.iter().any(|s| s.name == *q)));
     v
+}
+
+/// Quick-tier names that do not exist in the catalogue (must be empty; checked by C01 at start-up).
+pub fn missing_quick_names() -> Vec<String> {
+    let v = catalogue();
+    QUICK.iter().filter(|q| !v.iter().any(|s| s.name == **q)).map(|s| s.to_string()).collect()
 }
 
 pub fn find_spec(name: &str) -> Option<FixtureSpec> {
